@@ -91,6 +91,28 @@ func Make(w, h int, content, alpha string, seed int64) *image.NRGBA {
 					k = r.n(nc)
 				}
 				c = palette[k]
+			case content == "regionsV" || content == "regionsH" || content == "regions4":
+				// large statistically different regions whose borders fall on
+				// multiples of 16 px (entropy-image / tile-grid structure)
+				var reg int
+				switch content {
+				case "regionsV":
+					reg = x / 32 % 2
+				case "regionsH":
+					reg = y / 16 % 2
+				default:
+					reg = x/16%2 + 2*(y/16%2)
+				}
+				switch reg {
+				case 0:
+					c = color.NRGBA{uint8(r.n(256)), uint8(r.n(256)), uint8(r.n(256)), 255}
+				case 1:
+					c = palette[(x+y)%2]
+				case 2:
+					c = color.NRGBA{uint8(x * 3), uint8(y * 5), 40, 255}
+				default:
+					c = color.NRGBA{uint8(r.n(4) * 60), 200, uint8(r.n(2) * 255), 255}
+				}
 			case content == "gradient":
 				c = color.NRGBA{uint8(x * 255 / max1(w-1)), uint8(y * 255 / max1(h-1)), uint8((x + y) * 255 / max1(w+h-2)), 255}
 			case content == "many":
